@@ -53,6 +53,7 @@ import (
 
 	"github.com/lesismal/nbio"
 	"github.com/lesismal/nbio/logging"
+	"github.com/lesismal/nbio/mempool"
 	"github.com/lesismal/nbio/nbhttp"
 	"github.com/lesismal/nbio/nbhttp/websocket"
 	"github.com/lesismal/nbio/vsys"
@@ -278,6 +279,9 @@ func classify(err error) string {
 		return "eof"
 	case errors.As(err, &en):
 		return "io"
+	}
+	if os.Getenv("HDEADLINE_DEBUG") != "" {
+		fmt.Fprintf(os.Stderr, "other close error: %T %v\n", err, err)
 	}
 	return "other"
 }
@@ -691,7 +695,12 @@ func setupE2E(e *env, kind string, kaMs, wtMs int) (func(ws []string), func()) {
 	wt := time.Duration(wtMs) * time.Millisecond
 	mux := http.NewServeMux()
 	mux.HandleFunc("/small", func(w http.ResponseWriter, r *http.Request) { _, _ = w.Write([]byte("hello")) })
-	mux.HandleFunc("/big", func(w http.ResponseWriter, r *http.Request) { _, _ = w.Write(big) })
+	mux.HandleFunc("/big", func(w http.ResponseWriter, r *http.Request) {
+		// explicit length: keeps the response off the chunked writer (another family's defect #8 lives there and
+		// would corrupt the process-wide buffer pool shared by the concurrently running cases)
+		w.Header().Set("Content-Length", strconv.Itoa(len(big)))
+		_, _ = w.Write(big)
+	})
 	up := websocket.NewUpgrader()
 	up.KeepaliveTime = ka
 	up.OnMessage(func(c *websocket.Conn, mt websocket.MessageType, data []byte) { _ = c.WriteMessage(mt, data) })
@@ -703,6 +712,7 @@ func setupE2E(e *env, kind string, kaMs, wtMs int) (func(ws []string), func()) {
 	eng := nbhttp.NewEngine(nbhttp.Config{
 		Network: "tcp", Addrs: []string{"127.0.0.1:0"}, NPoller: 1, Handler: mux,
 		KeepaliveTime: ka, WriteTimeout: wt, MessageHandlerPoolSize: 8, SupportServerOnly: true,
+		BodyAllocator: mempool.New(1024, 1<<20), // per case: isolates the websocket buffers from the other cases
 	})
 	up.Engine = eng
 	var mu sync.Mutex
